@@ -13,8 +13,8 @@ import (
 
 	"github.com/tsenart/vegeta/v12/internal/simrt"
 	vegeta "github.com/tsenart/vegeta/v12/lib"
-	"github.com/tsenart/vegeta/v12/lib/plot"
 	"github.com/tsenart/vegeta/v12/lib/lttb"
+	"github.com/tsenart/vegeta/v12/lib/plot"
 )
 
 func init() {
